@@ -26,6 +26,8 @@ REQUIRED = ["oracle.where_fin", "oracle.where_fin.exact", "oracle.where_fin.grou
             "oracle.where_fin.short-dropped", "oracle.where_fin.dup-level-group", "oracle.where_fin.chained",
             "oracle.integrity", "oracle.integrity.after-where", "oracle.integrity.after-where_best",
             "oracle.raw_learners", "oracle.raw_learners.index", "oracle.raw_learners.param-x", "oracle.raw_learners.cells",
+            "oracle.where_fin.near-special-name", "oracle.raw_learners.near-special-name-x", "oracle.raw_learners.near-special-name-x.ragged",
+            "oracle.raw_learners.near-index-name-x.ragged", "oracle.raw_learners.near-special-name-lp",
             "oracle.moving_average", "oracle.moving_average.sliding", "oracle.moving_average.exp",
             "oracle.moving_average.weighted", "build.experiment", "build.transactions"]
 ASSUMPTIONS = [
@@ -250,7 +252,80 @@ def gen_case(rng):
             "meta": {"pattern": pattern, "lpat": lpat, "ekinds": ekinds, "lkinds": lkinds, "vkinds": vkinds},
             "ops": gen_ops(rng, cols, eids, lids, vids, lengths, pools),
             "ma": [gen_ma(rng) for _ in range(2)]}
+    if rng.random() < .4: spec = gen_names(rng, spec)
     return spec
+
+# ------------------------------------------------------------------------------------------ column NAMES are part of the input space
+# the names coba itself tests for / writes (ids, 'index', 'reward', the label columns, the 'x' column of raw_learners, our second y column)
+SPECIAL = ["index", "reward", "learner_id", "environment_id", "evaluator_id", "full_name", "family", "extra", "x"]
+FILL    = ["shuffle", "data", "arm", "seed", "n", "my"]
+def near_name(rng, tok):
+    """a parameter column name that contains / starts with / ends with / is a prefix of / differs only by case from `tok`"""
+    w = rng.choice(FILL)
+    return rng.choice([f"{w}_{tok}", f"{w}_{tok}", f"{tok}_{w}", f"{tok}_{w}", "re" + tok, tok + "s", tok + "2", "_" + tok, tok + "_", f"{w}{tok}{w}",
+                       tok.upper(), tok.capitalize(), tok[:-1], tok[:max(2, len(tok) // 2)], tok.replace("_", ""), tok.split("_")[0]])
+
+def rename_spec(spec, mapping):
+    """the same case with parameter columns renamed (cells, evaluations, operations untouched)"""
+    if not mapping: return spec
+    f = lambda c: mapping.get(c, c)
+    g = lambda c: None if c is None else f(c) if isinstance(c, str) else [f(k) for k in c]
+    out = dict(spec)
+    for t in ("envs", "lrns", "vals"): out[t] = {"cols": [f(c) for c in spec[t]["cols"]], "rows": spec[t]["rows"]}
+    ops = []
+    for op in spec["ops"]:
+        op = dict(op)
+        for k in ("l", "p", "x"):
+            if k in op: op[k] = g(op[k])
+        if "kw" in op: op["kw"] = {f(c): a for c, a in op["kw"].items()}
+        ops.append(op)
+    out["ops"] = ops
+    return out
+
+def gen_names(rng, spec):
+    """renames some parameter columns to names close to the special ones; spec['names'] = {new name: [old name, special name]}"""
+    canon = [c for t in ("envs", "lrns", "vals") for c in spec[t]["cols"][1:]]
+    taken = set(SPECIAL) | set(canon)
+    focus_tok = rng.choice(SPECIAL[:5] + ["index", "index"]) if rng.random() < .6 else None
+    mapping, names = {}, {}
+    for c in canon:
+        if rng.random() < (.35 if c == "family" else .7):
+            tok = focus_tok if focus_tok and rng.random() < .7 else rng.choice(SPECIAL)
+            for _ in range(20):
+                new = near_name(rng, tok)
+                if new and new not in taken: break
+            else: continue
+            taken.add(new); mapping[c] = new; names[new] = [c, tok]
+    if not mapping: return spec
+    out = rename_spec(spec, mapping)
+    out["names"] = names
+    ecols = [c for c in out["envs"]["cols"][1:] if c in names]
+    allc  = [c for c in names]
+    for op in out["ops"]:              # the renamed columns are what these cases are about: ask for them as x more often
+        if op["op"] == "raw_learners" and rng.random() < .6:
+            c = rng.choice(ecols) if ecols and rng.random() < .7 else rng.choice(allc)
+            op["x"] = c if rng.random() < .75 else [c]
+    return out
+
+def neutral_spec(spec, only=None):
+    """the case with the renamed columns (all, or just `only`) given their plain names back"""
+    names = spec.get("names") or {}
+    back = {new: old for new, (old, _) in names.items() if only is None or new in only}
+    out = rename_spec(spec, back)
+    out["names"] = {new: v for new, v in names.items() if new not in back}
+    return out
+
+def op_names(spec, op):
+    """[(role, column, special name)] for the renamed columns an operation names"""
+    names = spec.get("names") or {}
+    out = []
+    for k in ("x", "l", "p"):
+        v = op.get(k)
+        for c in ([] if v is None else [v] if isinstance(v, str) else v):
+            if c in names: out.append((k, c, names[c][1]))
+    for c in op.get("kw", {}):
+        if c in names: out.append(("where", c, names[c][1]))
+    return out
 
 EXP_ENV_COLS = ["environment_id", "seed", "shuffle_seed", "take"]
 EXP_LRN_COLS = ["learner_id", "family", "limit"]
@@ -504,10 +579,21 @@ def _cls_cols(c):
     if c is None: return "none"
     if isinstance(c, str): return "id" if c in ID_COLS or c == "full_name" else "param"
     return "list" + str(len(c))
+def _cls_names(meta, op):
+    """structural class of the renamed columns an operation names: ((role, special name, how the name relates to it), ...)"""
+    names, out = meta.get("names") or {}, set()
+    for k in ("x", "l", "p"):
+        v = op.get(k)
+        for c in ([] if v is None else [v] if isinstance(v, str) else v):
+            if c in names:
+                tok = names[c][1]
+                rel = ("case" if c.lower() == tok else "contains" if tok in c.lower() else "prefix") + ("" if isinstance(v, str) else "-in-list")
+                out.add((k, tok, rel))
+    return tuple(sorted(out))
 def _cls_n(n): return "none" if n is None else "min" if n == "min" else "int"
 
 # ------------------------------------------------------------------------------------------ the checker
-def check_case(spec, ctx=None):
+def check_case(spec, ctx=None, flag=True):
     viol = []
     def note(name, n=1):
         if ctx: ctx.count(name, n)
@@ -548,10 +634,11 @@ def check_case(spec, ctx=None):
     if dangling:           # cannot happen for the generated inputs; such a Result is outside the property's domain
         note("diag.input-dangling"); return viol
     consistent = not unref
-    meta = spec["meta"]
+    meta = dict(spec["meta"], names=spec.get("names") or {})
     n_e = len({ev[0] for ev in state.evals}); n_l = len({ev[1] for ev in state.evals})
     prefix = []
-    for op in spec["ops"]:
+    opv = []                             # (index of the operation, sig, what)
+    for i_op, op in enumerate(spec["ops"]):
         kind = op["op"]
         chained = bool(prefix)
         known = set(state.cols["env"]) | set(state.cols["lrn"]) | set(state.cols["val"]) | {"full_name", "index"}
@@ -561,7 +648,7 @@ def check_case(spec, ctx=None):
         # ------------------------------------------------------------------ raw_learners (an observation: R stays)
         if kind == "raw_learners":
             v = check_raw(R, state, op, prefix, meta, n_e, n_l, ctx, note)
-            viol.extend(v)
+            opv.extend((i_op, a, b) for a, b in v)
             continue
         # ------------------------------------------------------------------ transformations
         try:
@@ -570,7 +657,7 @@ def check_case(spec, ctx=None):
             if kind == "where_fin":
                 oc = key_order_class(state, op["l"], op["p"]) if op["l"] is not None else "total"
                 flags = "".join(f"/{f}" for f in ([oc] if oc != "total" else []) + (["empty-result"] if not state.evals else []))
-                viol.append((f"where_fin/n={_cls_n(op['n'])}{flags}/mode=raise:{type(e).__name__}", f"where_fin({op['n']!r},{op['l']!r},{op['p']!r}) raised {type(e).__name__}: {e}"))
+                opv.append((i_op, f"where_fin/n={_cls_n(op['n'])}{flags}/mode=raise:{type(e).__name__}", f"where_fin({op['n']!r},{op['l']!r},{op['p']!r}) raised {type(e).__name__}: {e}"))
             else: note(f"skipped.{kind}-raised")
             break
         st2 = extract(R2)
@@ -578,23 +665,45 @@ def check_case(spec, ctx=None):
         after = "/after=" + "+".join(prefix) if chained and kind != "where_fin" else ""
         bad = subset_and_values(state, st2)
         if bad:
-            viol.append((f"{kind}/invariant/mode={bad}", f"{kind} {op}: {bad}")); break
+            opv.append((i_op, f"{kind}/invariant/mode={bad}", f"{kind} {op}: {bad}")); break
         dangling2, unref2 = integrity(st2)
         if dangling2:
-            viol.append((f"{kind}/integrity/mode=dangling-{'+'.join(dangling2)}-id", f"after {kind} {op} interaction rows reference ids absent from {dangling2}")); break
+            opv.append((i_op, f"{kind}/integrity/mode=dangling-{'+'.join(dangling2)}-id", f"after {kind} {op} interaction rows reference ids absent from {dangling2}")); break
         explicit = kind == "where_fin" and op["l"] is not None
         if unref2 and (consistent or explicit):
-            viol.append((f"{kind}/integrity/mode=unreferenced-{'+'.join(unref2)}-row" + ("" if explicit else "/input-consistent"),
+            opv.append((i_op, f"{kind}/integrity/mode=unreferenced-{'+'.join(unref2)}-row" + ("" if explicit else "/input-consistent"),
                          f"after {kind} {op} the {unref2} table holds rows no interaction refers to")); break
         if kind == "where_fin":
             v = check_fin(state, st2, op, prefix, meta, n_e, n_l, ctx, note)
-            viol.extend(v)
+            opv.extend((i_op, a, b) for a, b in v)
             if v: break
         R, state = R2, st2
         consistent = not unref2
         prefix.append(kind)
         n_e = len({ev[0] for ev in state.evals}); n_l = len({ev[1] for ev in state.evals})
+    if opv and flag and spec.get("names"): opv = flag_names(spec, opv)
+    viol.extend((a, b) for _, a, b in opv)
     return viol
+
+def flag_names(spec, opv):
+    """a violation in a case with renamed columns: does it depend on the NAMES?  The case is run again with plain names; a signature
+    that is still there is reported as it is, otherwise the role and the special name of the column(s) whose renaming back
+    removes it go into the signature (.../x-name~index/mode=...)"""
+    plain = {a for a, _ in check_case(neutral_spec(spec), None, False)}
+    out, memo = [], {}
+    for i, sig, what in opv:
+        if sig in plain: out.append((i, sig, what)); continue
+        used = [r for op in spec["ops"][:i + 1] for r in op_names(spec, op)]
+        cols = sorted({c for _, c, _ in used})
+        culprits = []
+        for c in cols:
+            if c not in memo: memo[c] = {a for a, _ in check_case(neutral_spec(spec, {c}), None, False)}
+            if sig not in memo[c]: culprits.append(c)
+        here = [r for r in op_names(spec, spec["ops"][i]) if r[1] in culprits] or [r for r in used if r[1] in culprits] or used
+        fl = "".join(sorted({f"/{role}-name~{tok}" for role, _, tok in here}))
+        head, sep, tail = sig.rpartition("/mode=")
+        out.append((i, head + fl + sep + tail, what + f"  [depends on the column names: {sorted({(r, c) for r, c, _ in here})}; the same case with plain names passes]"))
+    return out
 
 def pairing_sig(mode, info, oc):
     """mechanism-level signature of a wrong pairing decision: the one structural feature that explains it, not every flag that is on"""
@@ -631,8 +740,12 @@ def check_fin(before, after, op, prefix, meta, n_e, n_l, ctx, note):
     n, l, p = op["n"], op["l"], op["p"]
     exp, info = ref_where_fin(before, n, l, p)
     oc = key_order_class(before, l, p) if l is not None else "total"
+    nk = _cls_names(meta, op)
+    if nk:
+        note("oracle.where_fin.near-special-name")
+        for k, tok, rel in nk: note(f"names.where_fin.{k}~{tok}")
     if ctx:
-        ctx.case(("fin", _cls_n(n), _cls_cols(l), _cls_cols(p), min(n_e, 4), min(n_l, 4), meta["pattern"], meta["lpat"], oc,
+        ctx.case(("fin", nk, _cls_n(n), _cls_cols(l), _cls_cols(p), min(n_e, 4), min(n_l, 4), meta["pattern"], meta["lpat"], oc,
                   info["dup_level_group"], info["dropped_groups"] > 0, info["truncated"] > 0, info["short_dropped"] > 0, tuple(prefix),
                   meta["ekinds"].get("data"), meta["lkinds"].get("lr")),
                  nontrivial=n_e >= 2 and n_l >= 2)
@@ -680,8 +793,9 @@ def check_raw(R, state, op, prefix, meta, n_e, n_l, ctx, note):
     fin_n = "min" if x == "index" else None
     exp_evals, info = ref_where_fin(state, fin_n, l, p)
     oc = key_order_class(state, l, p)
+    nk = _cls_names(meta, op)
     if ctx:
-        ctx.case(("raw", xk, sk, _cls_cols(l), _cls_cols(p), min(n_e, 4), min(n_l, 4), meta["pattern"], meta["lpat"], oc, info["dup_level_group"],
+        ctx.case(("raw", nk, xk, sk, _cls_cols(l), _cls_cols(p), min(n_e, 4), min(n_l, 4), meta["pattern"], meta["lpat"], oc, info["dup_level_group"],
                   info["dropped_groups"] > 0, info["truncated"] > 0, tuple(prefix)), nontrivial=n_e >= 2 and n_l >= 2 and bool(exp_evals))
     note("oracle.raw_learners")
     # first the finishing step on its own, so that an alarm names the right mechanism
@@ -701,6 +815,15 @@ def check_raw(R, state, op, prefix, meta, n_e, n_l, ctx, note):
     if not exp_evals:
         return [(f"raw_learners/x={xk}/mode=data-without-finished-evaluations", f"{call} returned {len(t)} rows although nothing is finished")]
     note("oracle.raw_learners.index" if x == "index" else "oracle.raw_learners.param-x")
+    if nk:
+        # the column NAMES are close to the names the code tests for; deciding when the name must not change what is computed
+        ragged = len({len(rows) for rows in exp_evals.values()}) > 1
+        for k, tok, rel in nk: note(f"names.raw_learners.{k}~{tok}")
+        if any(k == "x" for k, _, _ in nk):
+            note("oracle.raw_learners.near-special-name-x")
+            if ragged: note("oracle.raw_learners.near-special-name-x.ragged")          # cutting to a common length would change the averages
+            if ragged and any(k == "x" and tok == "index" and rel == "contains" for k, tok, rel in nk): note("oracle.raw_learners.near-index-name-x.ragged")
+        if any(k != "x" for k, _, _ in nk): note("oracle.raw_learners.near-special-name-lp")
     # direct computation from the interaction rows
     L = keyer(state, l)
     po = (x != "index" and key_order_class(state, l, x) == "partial-order-keys") or key_order_class(state, l, l) == "partial-order-keys"
